@@ -13,3 +13,12 @@ check("C20",
       "Trusted: Lean kernel; the C-expression translator; __builtin_*_overflow semantics = CArith.spec (cross-checked); LP64. "
       "Map/vector/buffer refinement: see DESIGN 6 C20 for current coverage.",
       "DESIGN.md#c20")
+
+check("C09",
+      "Lean 4 proof: model of interpolate.c sound+complete for an inductive expansion spec; differential run in-process and via robsd-config",
+      "Proof: Interp.interp transcribes interpolate/interpolate_inner with the C code's own depth counter (limit regenerated from the source); "
+      "Lean accepting the definition is the termination argument. interp_ok_iff_expands proves it sound and complete for an independent "
+      "inductive specification; malformed/unknown/self-referencing/too-deep inputs are proved to fail, files are all-or-nothing. The model is "
+      "run against interpolate_str in-process (ASan/UBSan) and robsd-config -v ... - on generated templates and environments with chains and cycles.",
+      "Trusted: Lean kernel; translator (depth limit); harness; C-string domain (no NUL inside one template).",
+      "DESIGN.md#c09")
